@@ -389,3 +389,22 @@ Print Assumptions c17_nothing_emitted_call.
 Print Assumptions c17_script_new_state.
 Print Assumptions c17_ex_extra_classes.
 Print Assumptions c17_script_nonvacuous.
+
+(* ================================================================== Flow<SendRequest>::headers_map *)
+(** A request that the analysis refuses is refused by [headers_map] too, with the same error as every head write, and the call
+    emits nothing and changes nothing (proofs/HeadersMap.v): the two entry points cannot disagree about validity. *)
+From Hoot Require Import Script.
+From Hoot.proofs Require Import HeadersMap.
+Theorem c17_headers_map_refuses : forall s f e,
+  s_obj s = ObFlow TSendRequest f -> analyze_request (i_call f) = Err e ->
+  step s OHeadersMap = (s, obs_err e).
+Proof.
+  intros s f e Ho Ha. rewrite (surjective_pairing (step s OHeadersMap)).
+  rewrite headers_map_pure, (headers_map_obs s f Ho), Ha. reflexivity.
+Qed.
+Theorem c17_headers_map_agrees_with_write : forall f e cap,
+  (i_holder f = HWithoutBody \/ (i_holder f = HWithBody /\ is_body (c_phase (i_call f)) = false)) ->
+  analyze_request (i_call f) = Err e -> send_request_write f cap = Err e.
+Proof. exact headers_map_err_write_err. Qed.
+Print Assumptions c17_headers_map_refuses.
+Print Assumptions c17_headers_map_agrees_with_write.
